@@ -57,7 +57,7 @@ def outOfEff : Eff → Callback.Out
   | .sendBackResponse (some resp) (some m) =>
     .reply (Callback.deliver resp.AcsUrl resp.ProtocolBinding resp.RelayState) (msgOf m (assertionOf m.Assertion))
       (if (assertionOf m.Assertion).isNone then .none else Callback.sigStyle resp.AcsUrl resp.ProtocolBinding)
-  | .sendBackResponse _ _ => .panic
+  | _ => .panic   -- a nil `Response` / message, or an effect a handler does not perform itself
 
 /-- the reply of a handler run: defined when it wrote exactly once (or panicked) -/
 def outOf : Res (List Eff) → Option Callback.Out
